@@ -31,7 +31,14 @@ static Fields gen(Tape &t) {
     case OP_NORMALIZE: f.set("text", g_uri(t)); f.seti("mask", t.coin() ? 63 : t.below(64)); f.seti("owned", t.below(2)); break;
     case OP_MAKEOWNER: f.set("text", g_uri(t)); break;
     case OP_DISSECT: f.set("text", g_querytext(t)); f.seti("p2s", t.below(2)); f.seti("bc", t.below(4)); f.seti("icnull", t.below(2)); break;
-    default: { int n = t.range(1, 4); f.seti("n", n); for (int i = 0; i < n; i++) { f.set("k." + std::to_string(i), t.coin() ? "key" : "a b"); if (t.coin()) f.set("v." + std::to_string(i), t.coin() ? "v\n" : ""); } }
+    default: {
+      int n = t.range(1, 4); f.seti("n", n);
+      bool longItems = t.chance(1, 4);  // worst-case size far above the composed size (several KiB of slack)
+      for (int i = 0; i < n; i++) {
+        f.set("k." + std::to_string(i), t.coin() ? "key" : "a b");
+        if (t.coin()) f.set("v." + std::to_string(i), longItems ? std::string((size_t)t.range(600, 3000), t.coin() ? 'v' : ' ') : (t.coin() ? "v\n" : ""));
+      }
+    }
   }
   f.seti("maskplans", t.below(1u << 16));
   // the manager under test: a complete recording manager, or (one case in four) a manager completed by
